@@ -546,6 +546,12 @@ pub fn run(args: &Args, report: &mut Report) {
                         if let Some(a) = items.as_array() {
                             cx.report.add("completion_items", a.len() as u64);
                             for it in a {
+                                if it.get("label").and_then(|l| l.as_str()).is_some_and(|l| l.starts_with('#')) {
+                                    cx.report.count("completion_array_append_items");
+                                }
+                                if it.get("textEdit").is_some() {
+                                    cx.report.count("completion_items_with_text_edit");
+                                }
                                 if let Some(te) = it.get("textEdit") {
                                     let rs: Vec<R> = ["range", "insert", "replace"].iter().filter_map(|k| te.get(*k).and_then(range)).collect();
                                     let cur = (p.0 as u64, p.1 as u64);
